@@ -137,7 +137,11 @@ AddPage(p)  == ~Exists(p) /\ files' = [files EXCEPT ![p] = [ex |-> TRUE, broken 
 DelPage(p)  == Has("DelPage") /\ Exists(p) /\ files' = [files EXCEPT ![p] = Absent] /\ SameDay /\ UNCHANGED nuid
                /\ UserT("DelPage", [trash EXCEPT ![p] = files[p]])
 \* the page comes back exactly as it was (moved back, restored from a backup)
+\* (the user restores a backup only if its notes do not live elsewhere by now - e.g. under the name the page was renamed to -
+\* otherwise the user, not zorg, would have made two notes with one ZID)
+ZidsIn(pg) == { pg.notes[i].zid : i \in DOMAIN pg.notes } \ { << >> }
 RestorePage(p) == Has("DelPage") /\ ~Exists(p) /\ trash[p].ex /\ files' = [files EXCEPT ![p] = trash[p]]
+                  /\ (\A q \in Pages : Exists(q) => ZidsIn(files[q]) \cap ZidsIn(trash[p]) = {})
                   /\ SameDay /\ UNCHANGED nuid /\ User("RestorePage")
 RenamePage(p, q) == Has("Rename") /\ Exists(p) /\ ~Exists(q) /\ files' = [files EXCEPT ![q] = files[p], ![p] = Absent]
                     /\ SameDay /\ UNCHANGED nuid /\ User("RenamePage")
